@@ -1,5 +1,6 @@
 import Qentem.Proofs.TmplFinderExact
 import Qentem.Proofs.ExprReloc
+import Qentem.Proofs.ExprScanTotal
 import Qentem.Model.Tmpl.Spec
 /-!
 # C02 stage 2 — templates made of text, `{var:…}` and `{raw:…}`: what `parse` returns
@@ -68,12 +69,17 @@ def tagsOf (cfg : ScanCfg R) (c : List Nat) (p : Nat) : List Seg → List (Tag R
     .math (itemsAt cfg c (p + 6) (p + 6 + e.length)) p (p + 6 + e.length + 1) ::
       tagsOf cfg c (p + 6 + e.length + 1) r
 
-/-- the scanner terminates within its fuel on the expression text (a property of the model's fuel,
-not of the code; see `scan_reloc`) -/
+/-- the scanner returns a list on the expression text alone — always true (`scanOk_all`, from
+`parseTop_total`); kept as a named fact because the relocation lemmas start from it -/
 def Seg.scanOk (rn : List Nat → Option (Num R)) : Seg → Prop
   | .math e => ∃ items : List (Item R),
       Qentem.Expr.parseTop ({ readNum := rn } : ScanCfg R) (e ++ [125]) 0 e.length = .ok items
   | _ => True
+
+theorem Seg.scanOk_all (rn : List Nat → Option (Num R)) (s : Seg) : s.scanOk rn := by
+  cases s with
+  | math e => exact Qentem.Expr.parseTop_total _ (e ++ [125]) 0 e.length (by simp)
+  | _ => trivial
 
 theorem get_mid (pre mid post : List Nat) (i : Nat) (h : i < mid.length) :
     (pre ++ (mid ++ post))[pre.length + i]? = mid[i]? := by
